@@ -885,9 +885,19 @@ class QuicConnection:
 
             # Server initialization.
             if not self._is_client and self._state == QuicConnectionState.FIRSTFLIGHT:
-                assert header.packet_type == QuicPacketType.INITIAL, (
-                    "first packet must be INITIAL"
-                )
+                if header.packet_type != QuicPacketType.INITIAL:
+                    # The first packet must be INITIAL, drop anything else.
+                    if self._quic_logger is not None:
+                        self._quic_logger.log_event(
+                            category="transport",
+                            event="packet_dropped",
+                            data={
+                                "trigger": "unexpected_packet",
+                                "raw": {"length": header.packet_length},
+                            },
+                        )
+                    buf.seek(start_off + header.packet_length)
+                    continue
                 crypto_frame_required = True
                 self._network_paths = [network_path]
                 self._version = header.version
